@@ -224,7 +224,7 @@ class Scenario:
         nw = self.nw
         from diameter.message.commands import AccountingRequest, CreditControlRequest
         app = nw.apps[app_i]
-        realm = {"own": env.NODE_REALM, "r2": "realm2.example", "foreign": "nowhere.example"}[realmkey]
+        realm = {"own": env.NODE_REALM, "r2": "realm2.example", "r3": "realm3.example", "foreign": "nowhere.example"}[realmkey]
         n = len(self.send_results)
         self.send_results.append([app_i, realmkey, "pending", None])
 
@@ -283,6 +283,14 @@ class Scenario:
                     return None
                 s.host = cfg["peers"][i]["name"]
                 return env.cer(host=s.host, acct=napps_acct or (), auth=napps_auth or (), hbh=hbh, e2e=e2e, ip=s.fs.peer_name[0])
+            if var.startswith("capsp"):         # known peer i spelling its Origin-Host in capitals (DiameterIdentity is case-insensitive)
+                i = int(var[5:])
+                if i >= len(cfg["peers"]):
+                    s.cer_sent = False
+                    return None
+                s.host = cfg["peers"][i]["name"]
+                s.cer_variant = f"p{i}"
+                return env.cer(host=s.host.upper(), acct=napps_acct or (), auth=napps_auth or (), hbh=hbh, e2e=e2e, ip=s.fs.peer_name[0])
             if var.startswith("v6p"):           # known peer, two Host-IP-Address AVPs (IPv4 + IPv6), Origin-State-Id, Supported-Vendor-Id
                 i = int(var[3:])
                 if i >= len(cfg["peers"]):
@@ -334,6 +342,8 @@ class Scenario:
             kw = dict(host=host, acct=napps_acct, auth=napps_auth, hbh=c.h.hbh, e2e=c.h.e2e)
             if var == "ok":
                 return env.cea(2001, **kw)
+            if var == "okcase":     # DiameterIdentity compares case-insensitively: the peer spells its own name in capitals
+                return env.cea(2001, **dict(kw, host=host.upper()))
             if var == "3xxx":
                 return env.cea(3010, **kw)
             if var == "5xxx":
